@@ -402,7 +402,7 @@ func c16Generate(t *rapid.T, join func(c16Key) string, knownAlias string, etcd b
 	g.script.Groups = groups
 	g.script.Create = map[string]int32{}
 	for _, tp := range topics {
-		if c16LegalTopic.MatchString(tp) && rapid.Bool().Draw(t, "create") {
+		if c16LegalTopic.MatchString(tp) && tp != "." && tp != ".." && rapid.Bool().Draw(t, "create") {
 			g.script.Create[tp] = int32(rapid.IntRange(1, 4).Draw(t, "nparts"))
 		}
 	}
